@@ -37,7 +37,7 @@ class ScriptEnv(gym.Env):
     """
 
     def __init__(self, script="", discrete=False, obs_dim=2, low=(-1.0, 0.0), high=(2.0, 3.0),
-                 n_actions=2, horizon=None, levels="", reward_fn=None, discrete_obs=0, reward_kind=None):
+                 n_actions=2, horizon=None, levels="", reward_fn=None, discrete_obs=0, reward_kind=None, act_dtype=np.float32):
         if discrete_obs:
             self.observation_space = gym.spaces.Discrete(discrete_obs)
         else:
@@ -45,7 +45,7 @@ class ScriptEnv(gym.Env):
         if discrete:
             self.action_space = LoggingDiscrete(n_actions)
         else:
-            self.action_space = LoggingBox(np.array(low, dtype=np.float32), np.array(high, dtype=np.float32))
+            self.action_space = LoggingBox(np.array(low, dtype=act_dtype), np.array(high, dtype=act_dtype), dtype=act_dtype)
         self.action_space.calls = []
         self.script, self.levels = script, levels
         self.horizon = horizon
